@@ -122,6 +122,52 @@ def run(ctx):
     model = coq_eval_sharded(['Model.IndexConv'], exprs, shard=60)
     ctx.leg('coq_eval_cases', len(exprs))
 
+    # one-component indexes (meshes): element numbers taken from numpy arrays (flatnonzero, argmin, a connectivity table)
+    import numpy as _np2
+    dm = gen.ugrid(rng, w=4, h=3, invalid=False, supplied={'edge_node'}, edge_dim_declared=True)
+    emsm = dm.ds.ems
+    enm = all_kind_enums(emsm)
+    for kname, size in expected_shapes(dm).items():
+        for k in sorted({0, size[0] - 1, size[0] // 2}):
+            for t in (_np2.int16, _np2.int32, _np2.int64, _np2.uint8, _np2.intp):
+                r = attempt(emsm.ravel_index, to_native('ugrid', enm, kname, (t(k),)))
+                ctx.case(('ugrid', 'int types', kname, k, t.__name__), True)
+                if not (r[0] == 'ok' and int(r[1]) == k):
+                    ctx.report('property', f'ravel_index of the {kname} numbered {k} given as {t.__name__} = {r[1]!r}',
+                               {'dataset': dm.spec['label'], 'kind': kname, 'index': k, 'dtype': t.__name__})
+                    break
+    # index components of any integer type (rows of a station table read as int16, uint8, int64 ...) denote the same cell as
+    # Python integers do - on grids whose sizes exceed what the narrow types hold
+    import numpy as _np
+    big = [gen.cf1d(rng, ny=190, nx=181, bounds=False), gen.cf2d(rng, ny=130, nx=260, bounds=False, holes='none'),
+           gen.arakawa(rng, nj=150, ni=230, holes='none', invalid=False)]
+    for d in big:
+        ems = d.ds.ems
+        flav = FLAVOUR[d.family]
+        enums = all_kind_enums(ems)
+        shape = expected_shapes(d)['face']
+        ctx.count('large_grid:index integer types')
+        for (j, i) in [(0, 0), (shape[0] - 1, shape[1] - 1), (shape[0] - 1, 0), (shape[0] // 2 + 40, 3), (127, 127), (128, 129), (100, shape[1] - 1)]:
+            if j >= shape[0] or i >= shape[1]:
+                continue
+            want = j * shape[1] + i
+            for t in (_np.int16, _np.int32, _np.int64, _np.uint8, _np.uint16, _np.intp):
+                if j > _np.iinfo(t).max or i > _np.iinfo(t).max:
+                    continue
+                r = attempt(ems.ravel_index, to_native(flav, enums, 'face', (t(j), t(i))))
+                ctx.case((d.family, 'int types', j, i, t.__name__), True)
+                if r != ('ok', want) and not (r[0] == 'ok' and int(r[1]) == want):
+                    ctx.report('property', f'ravel_index of ({j}, {i}) given as {t.__name__} components = {r[1]!r}; the cell is at linear '
+                               f'position {want} (grid {shape})', {'dataset': d.spec['label'], 'index': [j, i], 'dtype': t.__name__})
+                    break
+            if False:
+                pass
+            w = attempt(ems.wind_index, _np.int64(want), grid_kind=enums['face'])
+            w2 = attempt(ems.wind_index, _np.int32(want), grid_kind=enums['face'])
+            if w[0] != 'ok' or canon_native(flav, w[1]) != canon_native(flav, to_native(flav, enums, 'face', (j, i))) or w2 != w:
+                ctx.report('property', f'wind_index of {want} given as a numpy integer = {w} / {w2}, the cell is ({j}, {i})',
+                           {'dataset': d.spec['label'], 'linear': want})
+
     for plan, mres in zip(plans, model):
         d, flav, ems, enums, kname, kc, shape, size, lo, n, box = plan
         (m_wind, m_ravel), m_size = mres
